@@ -73,6 +73,12 @@ impl<R: BufRead> PacketParser<R> {
             return None;
         }
 
+        // an error of the underlying reader is not the end of the packet stream
+        if let Err(err) = self.reader.fill_buf() {
+            self.is_done = true;
+            return Some(Err(err.into()));
+        }
+
         let header = match PacketHeader::try_from_reader(&mut self.reader) {
             Ok(header) => header,
             Err(err) => {
